@@ -25,18 +25,20 @@ var c06Ops = []string{"SendMessage", "SendNotification", "SendRequestCommand", "
 
 func stagesFor(role string) []string {
 	if role == "server" {
-		return []string{"new", "negotiating", "authenticating", "in-authenticate-callback", "in-register-callback", "established", "finished", "failed-handshake", "failed-after-established", "peer-closed"}
+		return []string{"new", "negotiating", "authenticating", "in-authenticate-callback", "in-register-callback", "established", "finished", "failed-handshake", "failed-after-established", "peer-closed",
+			"finish-in-progress", "fail-in-progress"}
 	}
 	return []string{"new-before", "new-sent", "negotiating", "in-selector-callback", "authenticating", "in-authenticator-callback", "established", "finished", "failed-handshake", "failed-after-established", "peer-closed"}
 }
 
 type c06Obs struct {
-	Results  map[string]string `json:"results"`  // op -> "" (nil error) or error text
-	WireData []M               `json:"wireData"` // non-session envelopes this side wrote
-	PeerData int               `json:"peerData"` // data envelopes the scripted peer received
-	StateAt  string            `json:"stateAt"`
-	Reached  bool              `json:"reached"` // the stage was actually reached
-	Note     string            `json:"note,omitempty"`
+	Results        map[string]string `json:"results"`  // op -> "" (nil error) or error text
+	WireData       []M               `json:"wireData"` // non-session envelopes this side wrote
+	PeerData       int               `json:"peerData"` // data envelopes the scripted peer received
+	StateAt        string            `json:"stateAt"`
+	Reached        bool              `json:"reached"`                  // the stage was actually reached
+	TerminalOnWire bool              `json:"terminalOnWire,omitempty"` // -in-progress stages: the peer has received the finished / failed envelope
+	Note           string            `json:"note,omitempty"`
 }
 
 type sender interface {
@@ -185,15 +187,43 @@ func runC06Server(c *c06Case) *c06Obs {
 		fctx, fc := context.WithTimeout(context.Background(), time.Second)
 		_ = sc.FailSession(fctx, &lime.Reason{Code: 9, Description: "bye"})
 		fc()
+	case "finish-in-progress", "fail-in-progress":
+		// the terminal session envelope is on the wire, the terminating call has not returned yet (on TCP it waits for the
+		// receiver, up to one poll interval); the peer stays connected and idle. Another goroutine tries to send now.
+		establish()
+		wg.Add(1)
+		go func() {
+			defer wg.Done()
+			fctx, fc := context.WithTimeout(context.Background(), 20*time.Second)
+			defer fc()
+			if c.Stage == "finish-in-progress" {
+				_ = sc.FinishSession(fctx)
+			} else {
+				_ = sc.FailSession(fctx, &lime.Reason{Code: 9, Description: "bye"})
+			}
+		}()
+		synctest.Wait()
+		peer.Drain()
 	case "peer-closed":
 		establish()
 		_ = cl.Close()
 		synctest.Wait()
 	}
 	obs.StateAt = string(sc.State())
+	if strings.HasSuffix(c.Stage, "-in-progress") {
+		// reached when the peer has the terminal envelope in hand; the state the channel shows is what is being judged
+		for _, g := range peer.Got {
+			if st, _ := g.Env["state"].(string); st == "finished" || st == "failed" {
+				obs.TerminalOnWire = true
+			}
+		}
+	}
 	want := map[string]string{"new": "new", "negotiating": "negotiating", "authenticating": "authenticating", "in-authenticate-callback": "authenticating",
 		"in-register-callback": "authenticating", "established": "established", "finished": "finished", "failed-handshake": "failed", "failed-after-established": "failed", "peer-closed": "established"}
 	obs.Reached = obs.StateAt == want[c.Stage]
+	if strings.HasSuffix(c.Stage, "-in-progress") {
+		obs.Reached = obs.TerminalOnWire
+	}
 	doSends(sc, c.Ops, obs)
 	synctest.Wait()
 	peer.Drain()
